@@ -880,3 +880,78 @@ def jacobian_and_residuals_are_taken_at_the_guess_passed_in(K, fname, with_termi
         for c in range(5):
             K.ensure(f"data array after the call: cell ({r},{c})", K.real_eq(K.cell_val(K.cell(data, r, c)), expected(r, c)))
     K.ensure("the guess vector itself is not modified", K.And(*[K.real_eq(K.cell_val(K.cell(g, i)), gv[i]) for i in range(4)]))
+
+
+# ------------------------------------------------------------------------------ history: the Jacobian at a point does not depend on where it was asked first
+KINK_SRC = r"""
+!transition_variables
+    x, y
+!transition_shocks
+    ex
+!parameters
+    rho, c, ybar
+!transition_equations
+    x = rho*x[-1] + c*maximum(y[+1], 0) + ex;
+    y = 0.5*y[-1] + 0.5*ybar;
+"""
+
+
+@bounded("C02", bound="one model with a lead inside maximum(., 0) (flat while slack), 3 simulated periods, first-order terminal condition; the Jacobian at an active point after a first evaluation at a slack point, and in the reverse order, against central differences")
+def jacobian_does_not_remember_the_first_evaluation_point_native(B):
+    """State between calls: the terminal-condition correction completes its placement map at the first evaluation.  Where a
+    derivative with respect to a terminal unknown happens to be exactly zero at that first point, its place must still be
+    there at later points."""
+    import io, contextlib
+    import irispie as ir
+    from irispie.stacked_time import simulators as SS
+
+    class _Stop(Exception):
+        pass
+
+    def fresh():
+        m = ir.Simultaneous.from_string(KINK_SRC)
+        m.assign(rho=0.5, c=0.4, ybar=-1.0, x=0.0, y=-1.0)
+        cap = {}
+        original = SS._nq.damped_newton
+
+        def capturing(*, eval_func, eval_jacob, init_guess, args, **kwargs):
+            cap.update(eval_func=eval_func, eval_jacob=eval_jacob, init_guess=np.copy(init_guess), data=np.copy(args[0]))
+            raise _Stop()            # before the solver evaluates anything: the evaluator is still unused
+        with contextlib.redirect_stdout(io.StringIO()):
+            m.solve()
+            start = ir.qq(2020, 1)
+            span = start >> (start + 2)
+            db = m.build_steady_paths(span)
+            SS._nq.damped_newton = capturing
+            try:
+                m.simulate(db, span, method="stacked_time")
+            except Exception:
+                pass
+            finally:
+                SS._nq.damped_newton = original
+        return cap
+    for order in (("slack", "active"), ("active", "slack")):
+        cap = fresh()
+        if not cap:
+            B.fail("the stacked-time simulator did not reach the Newton solver", {})
+            return
+        g0 = cap["init_guess"]
+        points = {"slack": g0.copy(), "active": g0 + 3.0}          # y = -1: maximum flat everywhere  /  y = 2, so also y(T+1) = 0.5*2 - 0.5 > 0: active in the terminal period
+        for which in order:
+            B.case()
+            guess = points[which]
+            J = cap["eval_jacob"](guess, np.copy(cap["data"]))
+            J = J.toarray() if hasattr(J, "toarray") else np.asarray(J)
+            fd = np.zeros_like(J)
+            h = 1e-6
+            for i in range(guess.size):
+                gp, gm = guess.copy(), guess.copy()
+                gp[i] += h
+                gm[i] -= h
+                fd[:, i] = (np.asarray(cap["eval_func"](gp, np.copy(cap["data"])), dtype=float) - np.asarray(cap["eval_func"](gm, np.copy(cap["data"])), dtype=float)) / (2 * h)
+            bad = np.argwhere(np.abs(J - fd) > 1e-6 * np.maximum(1, np.abs(fd)))
+            if len(bad):
+                r, c = int(bad[0][0]), int(bad[0][1])
+                B.fail("the Jacobian depends on where it was evaluated first", {"order": order, "at": which, "row": r, "column": c, "jacobian": float(J[r, c]), "finite_difference": float(fd[r, c])})
+                return
+    return {"exhaustive_within_bound": True}
